@@ -133,3 +133,76 @@ Proof.
     + exists pi. split; [exact Hos|]. apply (file_data ms W t1 P C tF LF i k pi Hk Hpi).
   - unfold classify. intros r Hr. apply (EQ r Hq) in Hr as (i & Hi & _). discriminate.
 Qed.
+
+(* a link's entry is the lookup of its lexically normalised target in the index itself;
+   a target that climbs above the archive root ("..", leading after normalisation) has none *)
+Lemma links_inside ms t c :
+  wf_zip ms = true -> nice_links ms = true -> populate repaired ms = Ok (t, c) ->
+  forall m d, In m ms -> m_kind m = KLink d -> name_base (m_name m) <> [] ->
+    vfs_plookup t (m_name m) =
+    match target_comps (name_levels (m_name m)) d with
+    | Some tc => classify t (walk t 0 tc)
+    | None => LAbsent
+    end.
+Proof.
+  intros W NL Hp m d Hm Hk Hb. destruct (phase1_ok repaired ms W) as (t1 & P & ps0 & H1 & G & C & PI).
+  destruct (phase2_spec ms W NL t1 P ps0 G C PI) as (tF & cF & psf & Hl & LF & Cc & H4 & H5).
+  unfold populate in Hp. rewrite H1, Hl in Hp. inversion Hp; subst t c. clear Hp.
+  unfold vfs_plookup. rewrite (link_alias ms W NL t1 P ps0 G PI tF psf LF H4 H5 m d Hm Hk Hb).
+  destruct (target_comps (name_levels (m_name m)) d); reflexivity.
+Qed.
+
+(* ---------- witnesses for the code as pinned ---------- *)
+Definition fm (n : String.string) (d : String.string) : member := mkm (lit n) (lit n) (KFile (lit d)).
+Definition lm (n : String.string) (d : String.string) : member := mkm (lit n) (lit n) (KLink (lit d)).
+
+(* what the pinned code makes of an archive whose extracted tree resolves `s` *)
+Definition pinned_loses (ms : list member) (s : str) : Prop :=
+  wf_zip ms = true /\ nice_links ms = true /\
+  os_walk 50 (extract ms) [] (qcomps s) <> None /\
+  exists t c, populate pinned ms = Ok (t, c) /\ fst (vfs_lookup t c s) = LAbsent.
+
+(* invalid_paths filled while the index is being built is never emptied: a link through a
+   directory link that is resolved later in the same pass stays unresolved for good *)
+Definition ms_stale : list member :=
+  [fm "d/f.txt" "hello"; lm "l1" "l2/f.txt"; lm "l2" "d"].
+Lemma stale_negative_cache_refuted : pinned_loses ms_stale (lit "l1").
+Proof. unfold pinned_loses. splits; try reflexivity; [discriminate|]. eexists _, _. split; vm_compute; reflexivity. Qed.
+Lemma stale_negative_cache_repaired :
+  exists t c i k, populate repaired ms_stale = Ok (t, c) /\ fst (vfs_lookup t c (lit "l1")) = LFile i k.
+Proof. eexists _, _, _, _. split; vm_compute; reflexivity. Qed.
+
+(* relative link inside a directory whose name is not stored as UTF-8: the pinned code takes
+   dirname of zipfile's cp437 decoding ("caf" ++ U+251C U+2310), the index is keyed by the
+   transcoded name ("caf" ++ U+00E9) *)
+Definition cafe : str := lit "caf" ++ [233%N].
+Definition cafe437 : str := lit "caf" ++ [9500%N; 8976%N].
+Definition ms_enc : list member :=
+  [mkm (cafe ++ lit "/a.txt") (cafe437 ++ lit "/a.txt") (KFile (lit "A"));
+   mkm (cafe ++ lit "/l") (cafe437 ++ lit "/l") (KLink (lit "a.txt"))].
+Lemma link_dirname_encoding_refuted : pinned_loses ms_enc (cafe ++ lit "/l").
+Proof. unfold pinned_loses. splits; try reflexivity; [discriminate|]. eexists _, _. split; vm_compute; reflexivity. Qed.
+
+(* relative link to the archive root: normpath gives ".", looked up as a member called "." *)
+Definition ms_root : list member := [fm "d/a.txt" "A"; lm "d/up" ".."].
+Lemma link_to_root_refuted : pinned_loses ms_root (lit "d/up").
+Proof. unfold pinned_loses. splits; try reflexivity; [discriminate|]. eexists _, _. split; vm_compute; reflexivity. Qed.
+
+(* ---------- non-vacuity ---------- *)
+Definition ms_example : list member :=
+  [mkm (lit "docs/") (lit "docs/") KDir; fm "docs/a.txt" "alpha"; fm "b.txt" "beta";
+   lm "docs/up" ".."; lm "l" "docs/a.txt"; lm "abs" "/docs"; lm "cyc1" "cyc2"; lm "cyc2" "cyc1";
+   lm "out" "../../etc/passwd"; lm "dangling" "nothing"].
+Lemma example_ok :
+  wf_zip ms_example = true /\ nice_links ms_example = true /\
+  exists t c, populate repaired ms_example = Ok (t, c) /\
+    (exists i k, vfs_plookup t (lit "docs/up/l") = LFile i k /\ member_data ms_example k = lit "alpha") /\
+    (exists i, vfs_plookup t (lit "abs") = LDir i /\ dir_names t i = [lit "a.txt"; lit "up"]) /\
+    vfs_plookup t (lit "cyc1") = LAbsent /\ vfs_plookup t (lit "out") = LAbsent /\
+    vfs_plookup t (lit "dangling") = LAbsent.
+Proof.
+  splits; try reflexivity. eexists _, _. split; [vm_compute; reflexivity|].
+  splits; try (vm_compute; reflexivity).
+  - eexists _, _. split; vm_compute; reflexivity.
+  - eexists. split; vm_compute; reflexivity.
+Qed.
